@@ -368,6 +368,15 @@ func (r *rw) isChanArg(e ast.Expr) bool {
 
 func (r *rw) postStmt(s ast.Stmt) ast.Stmt {
 	switch x := s.(type) {
+	case *ast.DeferStmt:
+		// DeferStmt.Call is a *ast.CallExpr, not an ast.Expr slot, so postExpr never sees the call
+		// itself: `defer close(ch)` must become `defer vrt.Close(ch)` here (the operand is evaluated
+		// at the defer statement in both forms)
+		if len(x.Call.Args) == 1 && r.isBuiltin(x.Call.Fun, "close") {
+			r.counts["close"]++
+			x.Call = call(r.vrt("Close"), x.Call.Args[0])
+		}
+		return x
 	case *ast.SendStmt:
 		r.counts["send"]++
 		return &ast.ExprStmt{X: call(&ast.SelectorExpr{X: call(r.vrt("SendTo"), x.Chan), Sel: ast.NewIdent("V")}, x.Value)}
@@ -484,8 +493,38 @@ func (r *rw) goStmt(g *ast.GoStmt) ast.Stmt {
 	}
 	if id, ok := c.Fun.(*ast.Ident); ok {
 		if _, isB := r.info.Uses[id].(*types.Builtin); isB {
-			r.fail(g, "go statement with a builtin")
-			return g
+			// `go close(ch)` (and other builtins): operands are evaluated now, the builtin runs in the task
+			var pre []ast.Stmt
+			args := make([]ast.Expr, len(c.Args))
+			for i := range c.Args {
+				if tv, ok := r.info.Types[c.Args[i]]; ok && tv.IsType() {
+					args[i] = c.Args[i] // make(T), new(T): a type operand
+					continue
+				}
+				konst := r.isConstOrNil(c.Args[i])
+				r.walkExpr(&c.Args[i])
+				if konst {
+					args[i] = c.Args[i]
+					continue
+				}
+				at := r.tmp()
+				pre = append(pre, &ast.AssignStmt{Lhs: []ast.Expr{at}, Tok: token.DEFINE, Rhs: []ast.Expr{c.Args[i]}})
+				args[i] = at
+			}
+			var inner ast.Expr
+			if id.Name == "close" && len(args) == 1 {
+				r.counts["close"]++
+				inner = call(r.vrt("Close"), args[0])
+			} else {
+				ce := &ast.CallExpr{Fun: c.Fun, Args: args}
+				if c.Ellipsis != token.NoPos {
+					ce.Ellipsis = 1
+				}
+				inner = ce
+			}
+			body := &ast.FuncLit{Type: &ast.FuncType{Params: &ast.FieldList{}}, Body: &ast.BlockStmt{List: []ast.Stmt{&ast.ExprStmt{X: inner}}}}
+			pre = append(pre, &ast.ExprStmt{X: call(r.vrt("Go"), name, body)})
+			return &ast.BlockStmt{List: pre}
 		}
 	}
 	var pre []ast.Stmt
